@@ -169,3 +169,138 @@ Theorem C07_moduli_above_padding :
   256 ^ (8 - 1) <= M /\ 256 ^ (8 - 1) <= F62Ops.M62 /\ 256 ^ (16 - 1) <= F128Limbs.M.
 Proof. exact FieldBytesSpec.moduli_above_padding. Qed.
 Print Assumptions C07_moduli_above_padding.
+
+(* ---- coverage round: conversions to and from integers / bool, conjugate, compound assignments,
+        base_element (generated terms), raw byte views (Model/FieldBytes.v) for f64 ---- *)
+From VProofs Require FieldConvSpec.
+
+Theorem C07_f64_from_u8 : forall x, 0 <= x < 2^8 ->
+  repr (f64_from_u8 x) /\ val (f64_from_u8 x) = x /\ f64_from_u8_ok x = true.
+Proof. exact FieldConvSpec.C64.f64_from_u8_spec. Qed.
+Print Assumptions C07_f64_from_u8.
+
+Theorem C07_f64_from_u16 : forall x, 0 <= x < 2^16 ->
+  repr (f64_from_u16 x) /\ val (f64_from_u16 x) = x /\ f64_from_u16_ok x = true.
+Proof. exact FieldConvSpec.C64.f64_from_u16_spec. Qed.
+Print Assumptions C07_f64_from_u16.
+
+Theorem C07_f64_from_u32 : forall x, 0 <= x < 2^32 ->
+  repr (f64_from_u32 x) /\ val (f64_from_u32 x) = x /\ f64_from_u32_ok x = true.
+Proof. exact FieldConvSpec.C64.f64_from_u32_spec. Qed.
+Print Assumptions C07_f64_from_u32.
+
+Theorem C07_f64_from_bool : forall b,
+  repr (f64_from_bool b) /\ val (f64_from_bool b) = b2z b /\ f64_from_bool_ok b = true.
+Proof. exact FieldConvSpec.C64.f64_from_bool_spec. Qed.
+Print Assumptions C07_f64_from_bool.
+
+Theorem C07_f64_try_from_u64 : forall v, 0 <= v < 2^64 ->
+  f64_try_from_u64 v = (if v <? M then Some (f64_new v) else None) /\
+  (v < M -> repr (f64_new v) /\ val (f64_new v) = v) /\ f64_try_from_u64_ok v = true.
+Proof. exact FieldConvSpec.C64.f64_try_from_u64_spec. Qed.
+Print Assumptions C07_f64_try_from_u64.
+
+Theorem C07_f64_try_from_usize : forall v, 0 <= v ->
+  f64_try_from_usize v = if v <? M then Some (f64_new v) else None.
+Proof. exact FieldConvSpec.C64.f64_try_from_usize_spec. Qed.
+Print Assumptions C07_f64_try_from_usize.
+
+(* back to integers: Ok (val e) exactly when val e < 2^N, otherwise Err -- never truncated *)
+Theorem C07_f64_to_u8 : forall e, repr e -> f64_to_u8 e = if val e <? 2^8 then Some (val e) else None.
+Proof. exact FieldConvSpec.C64.f64_to_u8_spec. Qed.
+Print Assumptions C07_f64_to_u8.
+
+Theorem C07_f64_to_u16 : forall e, repr e -> f64_to_u16 e = if val e <? 2^16 then Some (val e) else None.
+Proof. exact FieldConvSpec.C64.f64_to_u16_spec. Qed.
+Print Assumptions C07_f64_to_u16.
+
+Theorem C07_f64_to_u32 : forall e, repr e -> f64_to_u32 e = if val e <? 2^32 then Some (val e) else None.
+Proof. exact FieldConvSpec.C64.f64_to_u32_spec. Qed.
+Print Assumptions C07_f64_to_u32.
+
+Theorem C07_f64_to_bool : forall e, repr e ->
+  f64_to_bool e = if val e =? 0 then Some false else if val e =? 1 then Some true else None.
+Proof. exact FieldConvSpec.C64.f64_to_bool_spec. Qed.
+Print Assumptions C07_f64_to_bool.
+
+Theorem C07_f64_to_u64_u128 : forall e, repr e ->
+  f64_to_u64 e = val e /\ f64_to_u128 e = val e /\ 0 <= val e < M.
+Proof. exact FieldConvSpec.C64.f64_to_u64_spec. Qed.
+Print Assumptions C07_f64_to_u64_u128.
+
+Theorem C07_f64_sf_as_int : forall e, f64_sf_as_int e = f64_as_int e.
+Proof. exact FieldConvSpec.C64.f64_sf_as_int_spec. Qed.
+Print Assumptions C07_f64_sf_as_int.
+
+Theorem C07_f64_conjugate : forall e, f64_conjugate e = e.
+Proof. exact FieldConvSpec.C64.f64_conjugate_spec. Qed.
+Print Assumptions C07_f64_conjugate.
+
+Theorem C07_f64_assign : forall a b,
+  f64_add_assign a b = f64_add a b /\ f64_sub_assign a b = f64_sub a b /\
+  f64_mul_assign a b = f64_mul a b /\ f64_div_assign a b = f64_div a b.
+Proof. exact FieldConvSpec.C64.f64_assign_spec. Qed.
+Print Assumptions C07_f64_assign.
+
+Theorem C07_f64_base_element : forall e i, f64_base_element e i = if i =? 0 then Some e else None.
+Proof. exact FieldConvSpec.C64.f64_base_element_spec. Qed.
+Print Assumptions C07_f64_base_element.
+
+(* mont_red_var: private, #[allow(dead_code)], no caller; not part of any public behaviour *)
+Theorem C07_f64_mont_red_var_dead_code_overflow :
+  let x := (2^64 - 1) * M - 2^127 in
+  0 <= x < 2^64 * M /\ f64_mont_red_var_ok x = false /\ f64_mont_red_var x = f64_mont_red_cst x.
+Proof. exact FieldConvSpec.C64.f64_mont_red_var_dead_code_overflow. Qed.
+Print Assumptions C07_f64_mont_red_var_dead_code_overflow.
+
+Theorem C07_f64_as_bytes_same_residue : forall a b, repr a -> repr b ->
+  (f64_as_bytes a = f64_as_bytes b <-> val a = val b).
+Proof. exact FieldConvSpec.C64.f64_as_bytes_same_residue. Qed.
+Print Assumptions C07_f64_as_bytes_same_residue.
+
+(* the zero-copy views, generic in ELEMENT_BYTES nb and the alignment: length check, alignment check on the
+   ADDRESS of the first byte, success with the LE words, round trip; no range check on the words *)
+Theorem C07_bytes_as_elements_len_err : forall nb align addr bs, (length bs mod nb <> 0)%nat ->
+  bytes_as_elements nb align addr bs = None.
+Proof. exact FieldConvSpec.bytes_as_elements_len_err. Qed.
+Print Assumptions C07_bytes_as_elements_len_err.
+
+Theorem C07_bytes_as_elements_misaligned : forall nb align addr bs, addr mod Z.of_nat align <> 0 ->
+  bytes_as_elements nb align addr bs = None.
+Proof. exact FieldConvSpec.bytes_as_elements_misaligned. Qed.
+Print Assumptions C07_bytes_as_elements_misaligned.
+
+Theorem C07_bytes_as_elements_ok : forall nb align, (0 < nb)%nat -> forall addr bs,
+  (length bs mod nb = 0)%nat -> addr mod Z.of_nat align = 0 -> Forall FieldBytesSpec.byte bs ->
+  exists ws, bytes_as_elements nb align addr bs = Some ws /\
+             length ws = (length bs / nb)%nat /\ elements_as_bytes nb ws = bs.
+Proof. exact FieldConvSpec.bytes_as_elements_ok. Qed.
+Print Assumptions C07_bytes_as_elements_ok.
+
+Theorem C07_bytes_as_elements_roundtrip : forall nb align, (0 < nb)%nat -> forall addr ws,
+  addr mod Z.of_nat align = 0 -> Forall (fun w => 0 <= w < 256 ^ Z.of_nat nb) ws ->
+  bytes_as_elements nb align addr (elements_as_bytes nb ws) = Some ws.
+Proof. exact FieldConvSpec.bytes_as_elements_roundtrip. Qed.
+Print Assumptions C07_bytes_as_elements_roundtrip.
+
+Theorem C07_bytes_as_elements_no_range_check :
+  f64_bytes_as_elements 0 (to_le_bytes 8 (2^64 - 1)) = Some [2^64 - 1] /\ ~ repr (2^64 - 1) /\
+  f62_bytes_as_elements 0 (to_le_bytes 8 (2^64 - 1)) = Some [2^64 - 1] /\ ~ F62Ops.repr62 (2^64 - 1) /\
+  f128_bytes_as_elements 0 (to_le_bytes 16 (2^128 - 1)) = Some [2^128 - 1] /\ ~ F128Ops.repr128 (2^128 - 1).
+Proof. exact FieldConvSpec.bytes_as_elements_no_range_check. Qed.
+Print Assumptions C07_bytes_as_elements_no_range_check.
+
+Theorem C07_try_from_slice_length : forall bs,
+  (length bs <> 8%nat -> f64_try_from_slice bs = None /\ f62_try_from_slice bs = None) /\
+  (length bs <> 16%nat -> f128_try_from_slice bs = None).
+Proof. exact FieldConvSpec.try_from_slice_length. Qed.
+Print Assumptions C07_try_from_slice_length.
+
+Theorem C07_try_from_slice_exact : forall bs, Forall FieldBytesSpec.byte bs ->
+  (length bs = 8%nat ->
+     f64_try_from_slice bs = (if of_le_bytes bs <? M then Some (f64_new (of_le_bytes bs)) else None) /\
+     f62_try_from_slice bs = F62.f62_try_from_u64 (of_le_bytes bs)) /\
+  (length bs = 16%nat ->
+     f128_try_from_slice bs = if of_le_bytes bs <? F128Limbs.M then Some (of_le_bytes bs) else None).
+Proof. exact FieldConvSpec.try_from_slice_exact. Qed.
+Print Assumptions C07_try_from_slice_exact.
